@@ -1266,3 +1266,203 @@ V('optab-buddy-or', 'C19', 'breaking',
 V('optab-cudd-le', 'C19', 'breaking',
   [('dd/cudd.pyx', "        return (other | ~ self) == self.bdd.true\n\n    def __lt__", "        return (self | ~ other) == self.bdd.true\n\n    def __lt__")],
   'R-OPTAB/method/dd.cudd.Function.__le__', '<= reversed in cudd')
+
+# -------------------------------------------------- rules added after seeding
+V('domain-terminal-root', 'C12', 'breaking',
+  [(B, "        umap = {1: 1}\n        for u in succ:", "        umap = dict()\n        for u in succ:")],
+  'R-DOMAIN/terminal-unmapped', 'F10 reintroduced')
+V('reord-retry-kwargs', 'C09', 'breaking',
+  [(B, """            r = func(
+                bdd,
+                *args, **kwargs)""", """            r = func(
+                bdd,
+                *args)""")],
+  'R-REORD/protocol', 'keyword arguments lost on the retry')
+V('reord-stale-levels', ['C03', 'C09'], 'breaking',
+  [(B, """        elif op in (r'\\E', 'exists'):
+            qvars = self.support(u)""", """        elif op in (r'\\E', 'exists'):
+            qvars = self.support(u, as_levels=True)""")],
+  'R-REORD/stale-level/dd.bdd.BDD.apply', 'levels computed outside the retried call')
+V('oneshot-autoref-quantify', 'C03', 'breaking',
+  [(A, """        r = self._bdd.quantify(u.node, qvars, forall)
+        return self._wrap(r)""", """        if not any(v in self.vars for v in qvars):
+            return u
+        r = self._bdd.quantify(u.node, qvars, forall)
+        return self._wrap(r)""")],
+  'R-ONESHOT/traversed-twice/dd.autoref.BDD.quantify', 'iterator consumed before delegating')
+V('memo-symmetric-key', 'C13', 'breaking',
+  [(B, "    t = (u, v)\n    w = cache.get(t)", "    t = (u, v) if u <= v else (v, u)\n    w = cache.get(t)")],
+  'R-MEMO/key-not-injective/dd.bdd._image', 'symmetric key for an asymmetric recursion')
+V('conn-guard-strengthened', 'C13', 'breaking',
+  [(B, """    # quantified ?
+    if z in qvars:
+        if forall:
+            r = bdd.ite(p, q, -1)""", """    # quantified ?
+    if z in qvars and (umap is None or z not in umap):
+        if forall:
+            r = bdd.ite(p, q, -1)""")],
+  'R-CONN/quantified-level-kept/dd.bdd._image', 'renamed levels escape quantification')
+V('count-compaction-names', 'C10', 'breaking',
+  [(B, """        levels = {
+            self.level_of_var(var)
+            for var in self.support(u)}
+        k = len(levels)""", """        levels = self.support(u)
+        k = len(levels)"""),
+   (B, """        for new, old in enumerate(sorted(levels)):
+            map_level[old] = new + slack""", """        for new, var in enumerate(sorted(levels)):
+            map_level[self.level_of_var(var)] = new + slack""")],
+  'R-VISIT/compaction-order', 'compact indices in name order')
+V('visit-support-one-child', 'C10', 'breaking',
+  [(B, """        self._support(v, levels, nodes)
+        self._support(w, levels, nodes)""", """        self._support(w, levels, nodes)""")],
+  'R-VISIT/child-skipped/dd.bdd.BDD._support', 'low successors never visited')
+V('copyvars-enumerate', 'C11', 'breaking',
+  [('dd/_copy.py', """    for var in source.vars:
+        level = source.level_of_var(var)
+        target.add_var(var, level=level)""", """    for level, var in enumerate(source.vars):
+        target.add_var(var, level=level)""")],
+  'R-ARGS/copy-vars', 'levels from iteration order')
+V('json-levels-from-target', 'C12', 'breaking',
+  [('dd/_copy.py', """        context['var_at_level'] = {
+            v: k for k, v in order.items()}""", """        context['var_at_level'] = {
+            bdd.level_of_var(k): k for k in order}""")],
+  'R-FORMAT/json-fields/dd._copy._store_line', 'file levels decoded with the manager')
+V('undeclare-vars-renumbered', ['C14', 'C02'], 'breaking',
+  [(B, """        self.vars = {
+            var: new_levels[old]
+            for var, old in self.vars.items()
+            if old in full_levels}""", """        self.vars = {
+            var: new
+            for new, var in enumerate(
+                var for var, old in self.vars.items()
+                if old in full_levels)}""")],
+  'R-INVMAP/vars-renumbered', 'names renumbered in insertion order')
+V('mdd-bits-sorted', 'C15', 'breaking',
+  [('dd/mdd.py', """        bits = dvars[var]['bitnames']
+        bit_succ = list()""", """        bits = sorted(dvars[var]['bitnames'], key=bdd.level_of_var)
+        bit_succ = list()""")],
+  'R-ARGS/bit-significance', 'significance follows the BDD order')
+V('dddmp-zip-sorted', 'C16', 'breaking',
+  [(D_, """                k: var for k, var in zip(self.permuted_var_ids,
+                                         self.support_vars)}""", """                k: var for k, var in zip(sorted(self.permuted_var_ids),
+                                         self.support_vars)}""")],
+  'R-ARGS/misaligned-zip', 'ids sorted before pairing with names')
+V('dddmp-single-pass', 'C16', 'breaking',
+  [(D_, """    for j in range(len(new_levels) - 1, -1, -1):
+        for u, (k, v, w) in bdd_succ.items():
+            # terminal ?
+            if v is None:
+                if w is not None:
+                    raise AssertionError(w)
+                continue
+            # non-terminal
+            i = old2new[k]
+            if i != j:
+                continue
+            p, q = umap[abs(v)], umap[w]
+            if v < 0:
+                p = -p
+            r = bdd.find_or_add(i, p, q)
+            umap[abs(u)] = r""", """    for u, (k, v, w) in sorted(bdd_succ.items()):
+        # terminal ?
+        if v is None:
+            if w is not None:
+                raise AssertionError(w)
+            continue
+        # non-terminal
+        i = old2new[k]
+        p, q = umap[abs(v)], umap[w]
+        if v < 0:
+            p = -p
+        r = bdd.find_or_add(i, p, q)
+        umap[abs(u)] = r""")],
+  'R-ARGS/not-bottom-up', 'assumes children are numbered below parents')
+V('tempdir-open-outside-try', ['C17', 'C12'], 'breaking',
+  [('dd/_copy.py', """    os.makedirs(SHELVE_DIR)
+    try:
+        with _open_shelf(tmp_fname) as cache,\\
+                open(file_name, 'r') as fd:
+            nodes = _load_json(""", """    os.makedirs(SHELVE_DIR)
+    fd = open(file_name, 'r')
+    try:
+        with _open_shelf(tmp_fname) as cache, fd:
+            nodes = _load_json(""")],
+  'R-PAIR/tempdir-leak/dd._copy.load_json', 'open between makedirs and try')
+V('todot-hoisted-kw', 'C18', 'breaking',
+  [(B, """    for u in roots:
+        i, _, _ = bdd._succ[abs(u)]
+        su = f'"ref{u}"'""", """    kw = dict(style='dashed')
+    for u in roots:
+        i, _, _ = bdd._succ[abs(u)]
+        su = f'"ref{u}"'"""),
+   (B, """        sv = str(abs(u))
+        kw = dict(style='dashed')
+        if u < 0:""", """        sv = str(abs(u))
+        if u < 0:""")],
+  'R-SIGN/loop-carried/dd.bdd._to_dot', 'complement mark carried across roots')
+V('tonx-signed-membership', 'C18', 'breaking',
+  [(B, """            r = (v < 0)
+            v = abs(v)
+            w = abs(w)
+            if v not in g:
+                Q.add(v)
+            if w not in g:
+                Q.add(w)""", """            if v not in g:
+                Q.add(v)
+            if w not in g:
+                Q.add(w)
+            r = (v < 0)
+            v = abs(v)
+            w = abs(w)""")],
+  'R-SIGN/signed-identity/dd.bdd.to_nx', 'membership tested with the signed id')
+V('succ-pushes-sign', 'C18', 'breaking',
+  [(A, """        i, v, w = self._bdd.succ(u.node)
+        def wrap(""", """        i, v, w = self._bdd.succ(u.node)
+        if u.negated and v is not None:
+            v, w = -v, -w
+        def wrap(""")],
+  'R-SIGN/rectified-view-signed/dd.autoref.BDD.succ', 'rectified view made sign dependent')
+V('lt-total-order', 'C01', 'breaking',
+  [(A, "        return self <= other and self != other", "        return not (other <= self)")],
+  'R-OPTAB/method/dd.autoref.Function.__lt__', 'strict order from a partial order')
+V('ite-standard-triple', 'C01', 'breaking',
+  [(B, """        # g is non-terminal
+        # already computed ?
+        r = (g, u, v)""", """        # g is non-terminal
+        if u == -1 and 1 < abs(v) < abs(g):
+            g, v = v, g
+        # already computed ?
+        r = (g, u, v)""")],
+  'R-OPTAB/ite-rewrite', 'wrong operand normalisation')
+V('ite-standard-triple-ok', 'C01', 'benign',
+  [(B, """        # g is non-terminal
+        # already computed ?
+        r = (g, u, v)""", """        # g is non-terminal
+        if u == 1 and 1 < abs(v) < abs(g):
+            g, v = v, g
+        elif v == -1 and 1 < abs(u) < abs(g):
+            g, u = u, g
+        # already computed ?
+        r = (g, u, v)""")],
+  None, 'correct operand normalisations (or / and are commutative)')
+V('pairs-stale-snapshot', 'C07', 'breaking',
+  [(B, """    levels = bdd._levels()
+    for x, y in pairs.items():
+        jx = bdd.level_of_var(x)
+        jy = bdd.level_of_var(y)""", """    levels = bdd._levels()
+    var_levels = bdd.var_levels
+    for x, y in pairs.items():
+        jx = var_levels[x]
+        jy = var_levels[y]""")],
+  'R-REORD/stale-snapshot/dd.bdd.reorder_to_pairs', 'levels read from a copy')
+V('swap-loop-decref-tuple', ['C06', 'C07'], 'benign',
+  [(B, """            self.decref(v)
+            self.decref(w)
+            # possibly unused
+            garbage.add(abs(v))
+            garbage.add(w)""", """            for c in (v, w):
+                self.decref(c)
+            # possibly unused
+            garbage.add(abs(v))
+            garbage.add(w)""")],
+  None, 'release through a loop over a tuple (no de-duplication)')
